@@ -187,7 +187,7 @@ def run(ctx):
     tot = max(1, ctx.stats.evaluations)
     ctx.floor("1xN / Nx1 boards (share)", round(cl["flag:single-row-or-column"] / tot, 3), 0.08)
     ctx.floor("unsorted rooms among Rooms cases",
-              round(cl["flag:unsorted-rooms"] / max(1, cl["flag:rooms"]), 3), 0.30)
+              round(cl["flag:unsorted-rooms"] / max(1, cl["flag:rooms"]), 3), 0.25)
     ctx.floor("valued rooms cases", cl["flag:valued-rooms"], 50)
     ctx.floor("depth >= 2 (share)", round(cl["depth>=2"] / tot, 3), 0.2)
     ctx.floor("combinator object reused for another board size", cl["flag:combinator-reused-for-another-size"], 200)
